@@ -99,14 +99,14 @@ Proof.
   - apply ptext_fchoose.
   - destruct (fth (px s)) as [| | |acc dn [k|]| |] eqn:E; try reflexivity.
     + destruct (Nat.eqb k (lid (en s)) && negb (lclosed (en s))); cbn [px];
-        (eapply ptext_handover; [eassumption|]); [apply after_batch_text|reflexivity].
+        (eapply ptext_handover; [eassumption|apply after_batch_text]).
     + cbn [px]. eapply ptext_handover; [eassumption|apply after_batch_text].
   - destruct (negb (app (en s)) && negb (running (en s))); reflexivity.
   - destruct (app (en s) && running (en s)); reflexivity.
   - destruct (app (en s) && negb (running (en s)) && fdone (ch s) (lastf (ch s))); reflexivity.
   - destruct (negb (app (en s)) && negb (lclosed (en s))); reflexivity.
   - destruct (lclosed (en s)); [reflexivity|]. destruct (loopq (en s)); [reflexivity|].
-    destruct (app (en s) && ctx (en s) && running (en s)); [|reflexivity].
+    destruct (app (en s) && (running (en s) || negb (fdone (ch s) (lastf (ch s))))); [|reflexivity].
     destruct (submit _ _ _ _). reflexivity.
   - destruct (app (en s) && running (en s) && _); reflexivity.
   - destruct (app (en s) && running (en s)); [|reflexivity]. destruct (submit _ _ _ _). reflexivity.
